@@ -28,7 +28,7 @@ enum { K_PAIRS, K_ACC, K_REJ, K_DIRECT_CALLS, K_DIRECT_NULL_CALLS, K_MATCH_CALLS
        K_NUM_TRAIL, K_NUM_INNER, K_NUM_OMIT, K_NUM_DIGITS, K_NUM_TRUNC, K_NUM_LEN0, K_CELL_BEYOND_UNTOUCHED, K_CELL_BEYOND_TOUCHED,
        K_REJ_NUMBERS_TOUCHED, K_PADDED, K_EMPTY_SKIPPED, K_PAT_USED, K_PAT_AMBIG, K_PAT_ASAN_SHARE_SKIP, K_AMBIG_PAIRS, K_AMBIG_DIFF,
        K_ACC_SKIPPED_OPT, K_ACC_ALL_PRESENT, K_ACC_LEADING_COLON, K_ACC_LOWER, K_ACC_QUERY, K_REJ_QUERY_MISMATCH,
-       K_COMMON_ACC, K_COMMON_REJ, K_HARV_PAT, K__N };
+       K_COMMON_ACC, K_COMMON_REJ, K_HARV_PAT, K_NUM_LONGPAD, K__N };
 static const char * const knames[K__N] = { "pairs.total", "pairs.accepted", "pairs.rejected", "direct.calls", "direct.calls_numbers_null",
     "match.calls", "dispatch.inputs", "dispatch.handler_ran", "dispatch.no_handler", "dispatch.lexer_delivered_other_header",
     "dispatch.iscmd_own_header", "dispatch.iscmd_probe_true", "dispatch.iscmd_probe_false", "dispatch.commandnumbers_calls",
@@ -38,7 +38,7 @@ static const char * const knames[K__N] = { "pairs.total", "pairs.accepted", "pai
     "headers.empty_skipped", "patterns.used", "patterns.skipped_ambiguous", "patterns.outside_asan_share",
     "ambiguous.pairs_counted_only", "ambiguous.library_differs_from_reference",
     "accepted.with_skipped_optional", "accepted.all_keywords_present", "accepted.leading_colon", "accepted.lower_or_mixed_case",
-    "accepted.query", "rejected.query_mismatch", "common.accepted", "common.rejected", "patterns.harvested" };
+    "accepted.query", "rejected.query_mismatch", "common.accepted", "common.rejected", "patterns.harvested", "numbers.digit_strings_padded_past_int32_width" };
 static uint64_t kc[K__N];
 static uint64_t evals_local;
 static void flush_counters(void) {
@@ -54,7 +54,7 @@ typedef struct {
     int k; /* number of '#' keywords */
     char o1[REF_MAX_SLOTS][REF_MAX_KEY]; /* per slot: short form of a different keyword */
     char o2[REF_MAX_SLOTS][REF_MAX_KEY]; /* per slot: long form of another different keyword */
-    char dig[REF_MAX_SLOTS][2][12];      /* digit strings appended to short / long form */
+    char dig[REF_MAX_SLOTS][2][36];      /* digit strings appended to short / long form */
 } pat_t;
 
 static void forms_of(const char * raw, char * sht, char * lng) {
@@ -444,8 +444,9 @@ static void choose_digits(pat_t * P, vh_rng_t * rng) {
     long used[REF_MAX_SLOTS * 2]; int nu = 0;
     for (i = 0; i < REF_MAX_SLOTS; i++) for (f = 0; f < 2; f++) {
         for (;;) {
-            long v; int dup = 0; const char * fmt = "%ld";
-            switch (vh_below(rng, 8)) {
+            long v; int dup = 0, width = 0; const char * fmt = "%ld";
+            switch (vh_below(rng, 9)) {
+                case 8: v = vh_chance(rng, 1, 2) ? (long) vh_below(rng, 100) : 2147483647L - (long) vh_below(rng, 1000); width = 11 + (int) vh_below(rng, 20); break; /* the digit count of a suffix is not limited: padded past the width of INT32_MAX */
                 case 0: v = (long) vh_below(rng, 10); break;
                 case 1: v = (long) vh_below(rng, 100); break;
                 case 2: v = (long) vh_below(rng, 1000); fmt = "%03ld"; break;
@@ -460,6 +461,8 @@ static void choose_digits(pat_t * P, vh_rng_t * rng) {
             if (dup) continue;
             used[nu++] = v;
             g = snprintf(P->dig[i][f], sizeof P->dig[i][f], fmt, v);
+            if (width && g > 0 && g < width && width < (int) sizeof P->dig[i][f]) { memmove(P->dig[i][f] + (width - g), P->dig[i][f], (size_t) g + 1); memset(P->dig[i][f], '0', (size_t) (width - g)); }
+            if (width) kc[K_NUM_LONGPAD]++;
             (void) g;
             break;
         }
@@ -626,7 +629,7 @@ int main(int argc, char ** argv) {
     vh_require("numbers.default_trailing_skipped_keyword");
     vh_require("numbers.default_inner_skipped_keyword");
     vh_require("numbers.default_suffix_omitted");
-    vh_require("numbers.value_from_digits");
+    vh_require("numbers.value_from_digits"); vh_require("numbers.digit_strings_padded_past_int32_width");
     vh_require("numbers.cells_cut_by_len");
     vh_require("common.accepted");
     vh_require("common.rejected");
